@@ -164,17 +164,22 @@ pub fn run(a: &Args, out: &mut impl Write) {
         };
         longj(out, pc, t);
     }
-    // ---- 32-bit ARM: arena below 4 GiB
-    let b32 = arena::map_at(0x1000_0000, 4 * arena::PAGE, false).or_else(|| arena::map_at(0x2000_0000, 4 * arena::PAGE, false)).expect("a32 arena");
-    for off in [16usize, 18, 20, 22, 4096 - 12, 4096 - 10, 4096 - 6, 4096 - 4, 4096 - 2, 4096, 4098] {
-        for t in [0x8000u32, 0x8001, 0xffff_fffc, 0xffff_ffff, 0x1234_5678, 0x1234_5679] {
-            if off % 4 == 0 {
-                a32(out, b32, (b32 + off) as u32, t); // ARM state: entries are word aligned
+    // ---- 32-bit ARM: arenas below 4 GiB, one of them above 2 GiB (bit 31 of every address set:
+    // where signed and unsigned 32-bit views of an address differ)
+    let b_lo = arena::map_at(0x1000_0000, 4 * arena::PAGE, false).or_else(|| arena::map_at(0x2000_0000, 4 * arena::PAGE, false)).expect("a32 arena");
+    let b_hi = arena::map_at(0xB6F1_0000, 4 * arena::PAGE, false).or_else(|| arena::map_at(0x9000_0000, 4 * arena::PAGE, false)).expect("a32 high arena");
+    for b32 in [b_lo, b_hi] {
+        for off in [16usize, 18, 20, 22, 4096 - 12, 4096 - 10, 4096 - 6, 4096 - 4, 4096 - 2, 4096, 4098] {
+            for t in [0x8000u32, 0x8001, 0xffff_fffc, 0xffff_ffff, 0x1234_5678, 0x1234_5679] {
+                if off % 4 == 0 {
+                    a32(out, b32, (b32 + off) as u32, t); // ARM state: entries are word aligned
+                }
+                a32(out, b32, (b32 + off) as u32 | 1, t); // Thumb state
             }
-            a32(out, b32, (b32 + off) as u32 | 1, t); // Thumb state
         }
     }
-    for _ in 0..a.n {
+    for i in 0..a.n {
+        let b32 = if i % 2 == 0 { b_lo } else { b_hi };
         let off = 16 + 2 * r.below(4096) as usize;
         let thumb = r.chance(2, 3);
         let off = if thumb { off } else { off & !3 };
